@@ -1,165 +1,11 @@
-(* Driver for the extracted Gallina models: float instance of [ops], a token
-   reader for case files written by the Python harness, one result line per query.
-   Floats travel as C99 hex literals in both directions (no decimal rounding). *)
-open Model
-
-let rec n_of_int i = if i <= 0 then O else S (n_of_int (i - 1))
-let rec int_of_n = function O -> 0 | S n -> 1 + int_of_n n
-
-let fops : float ops = {
-  tzero = 0.0; tone = 1.0;
-  tadd = ( +. ); tmul = ( *. ); tsub = ( -. ); topp = (fun x -> -. x);
-  tdiv = ( /. );
-  tleb = (fun a b -> a <= b); tltb = (fun a b -> a < b); teqb = (fun a b -> a = b);
-  tofnat = (fun n -> float_of_int (int_of_n n));
-  ttrunc = (fun x -> n_of_int (int_of_float x));
-  tceil = (fun x -> n_of_int (int_of_float (ceil x)));
-  tsqrt = sqrt; texp = exp; tln = log; tacos = acos; tatan = atan;
-  tpi = 4.0 *. atan 1.0;
-  tabs = abs_float }
-
-(* ---- token reader ---- *)
-let tokens : string Queue.t = Queue.create ()
-let load ic =
-  (try
-     while true do
-       let line = input_line ic in
-       List.iter (fun s -> if s <> "" then Queue.add s tokens)
-         (String.split_on_char ' ' line)
-     done
-   with End_of_file -> ())
-let next () = Queue.pop tokens
-let has_next () = not (Queue.is_empty tokens)
-let rint () = int_of_string (next ())
-let rnat () = n_of_int (rint ())
-let rflt () = float_of_string (next ())
-let rbool () = rint () <> 0
-let rlist n f = List.init n (fun _ -> f ())
-(* arrays with explicit shape header: rank then dims *)
-let r1 f = let n = rint () in rlist n f
-let r2 f = let a = rint () in let b = rint () in rlist a (fun () -> rlist b f)
-let r3 f = let a = rint () in let b = rint () in let c = rint () in
-  rlist a (fun () -> rlist b (fun () -> rlist c f))
-let r4 f = let a = rint () in let b = rint () in let c = rint () in let d = rint () in
-  rlist a (fun () -> rlist b (fun () -> rlist c (fun () -> rlist d f)))
-let rvec () = let x = rflt () in let y = rflt () in let z = rflt () in ((x, y), z)
-let ropt f = if rbool () then Some (f ()) else None
-
-(* ---- printers ---- *)
-let buf = Buffer.create 65536
-let pf x = Buffer.add_char buf ' '; Buffer.add_string buf (Printf.sprintf "%h" x)
-let pi_ n = Buffer.add_char buf ' '; Buffer.add_string buf (string_of_int n)
-let pn n = pi_ (int_of_n n)
-let start name = Buffer.clear buf; Buffer.add_string buf name
-let finish () = print_string (Buffer.contents buf); print_newline ()
-let p1 f l = List.iter f l
-let p2 f l = List.iter (p1 f) l
-let p3 f l = List.iter (p2 f) l
-let p4 f l = List.iter (p3 f) l
-
-(* ---- session state ---- *)
-let cur_scene : float scene option ref = ref None
-let cur_timing : float timing option ref = ref None
-let cur_source : float source option ref = ref None
-let cur_recv : float receiver option ref = ref None
-let cur_E : float arr4 option ref = ref None
-let get r what = match !r with Some x -> x | None -> failwith ("no " ^ what)
-
-let read_scene () =
-  let np = rnat () in let nd = rnat () in let nb = rnat () in
-  let centers = r1 rvec in
-  let areas = r1 rflt in
-  let wall = r1 rnat in
-  let visU = r2 rbool in
-  let f = r2 rflt in
-  let att = r1 rflt in
-  let tables = r4 rflt in
-  let tidx = r1 rnat in
-  let ins = r2 rvec in
-  let outs = r2 rvec in
-  { s_np = np; s_nd = nd; s_nb = nb; s_centers = centers; s_areas = areas; s_wall = wall;
-    s_visU = visU; s_F = f; s_att = att; s_tables = tables; s_tidx = tidx; s_in = ins; s_out = outs }
-
-let read_source () =
-  let pos = rvec () in
-  let vis = r1 rbool in
-  let share = r1 rflt in
-  let df = ropt (fun () -> r2 rflt) in
-  { src_pos = pos; src_vis = vis; src_share = share; src_dirfac = df }
-
-let read_receiver () =
-  let pos = rvec () in
-  let vis = r1 rbool in
-  let share = r1 rflt in
-  { r_pos = pos; r_vis = vis; r_share = share }
-
+(* Main loop: reads the case file (argv[1] or stdin) and dispatches each command token. *)
+open Drv_core
 let () =
   let ic = if Array.length Sys.argv > 1 then open_in Sys.argv.(1) else stdin in
   load ic;
   while has_next () do
     let cmd = next () in
-    (match cmd with
-     | "scene" -> cur_scene := Some (read_scene ())
-     | "timing" ->
-       let c = rflt () in let dt = rflt () in let dur = rflt () in
-       cur_timing := Some { t_c = c; t_dt = dt; t_dur = dur }
-     | "source" -> cur_source := Some (read_source ())
-     | "receiver" -> cur_recv := Some (read_receiver ())
-     | "set_E" -> cur_E := Some (r4 rflt)
-     | "q_nsamples" -> start cmd; pn (n_samples fops (get cur_timing "timing")); finish ()
-     | "q_pairs" ->
-       start cmd; List.iter (fun (i, j) -> pn i; pn j) (vis_pairs (get cur_scene "scene")); finish ()
-     | "q_tilde" -> start cmd; p4 pf (tilde fops (get cur_scene "scene")); finish ()
-     | "q_p2o" -> start cmd; p2 pn (p2o fops (get cur_scene "scene")); finish ()
-     | "q_delaymat" ->
-       start cmd; p2 pn (delay_matrix fops (get cur_scene "scene") (get cur_timing "timing")); finish ()
-     | "q_e0dir" ->
-       start cmd; p3 pf (e0dir fops (get cur_scene "scene") (get cur_source "source")); finish ()
-     | "q_delay0" ->
-       start cmd;
-       p1 pn (delay0 fops (get cur_scene "scene") (get cur_timing "timing") (get cur_source "source"));
-       finish ()
-     | "q_srcdist" ->
-       let sc = get cur_scene "scene" and s = get cur_source "source" in
-       start cmd;
-       List.iteri (fun j _ -> pf (src_dist fops sc s (n_of_int j))) sc.s_centers; finish ()
-     | "q_hist" ->
-       let k = rnat () in
-       let e = patch_hist fops (get cur_scene "scene") (get cur_timing "timing")
-           (get cur_source "source") k in
-       cur_E := Some e; start cmd; p4 pf e; finish ()
-     | "q_patchwise" ->
-       start cmd;
-       p3 pf (patchwise fops (get cur_scene "scene") (get cur_timing "timing")
-                (get cur_E "E") (get cur_recv "receiver")); finish ()
-     | "q_mono" ->
-       let direct = rbool () in
-       let df = ropt (fun () -> r1 rflt) in
-       start cmd;
-       p2 pf (mono fops (get cur_scene "scene") (get cur_timing "timing") (get cur_E "E")
-                (get cur_source "source") (get cur_recv "receiver") direct df); finish ()
-     | "q_exchange" ->
-       (* stand-alone kernel: K np nd nb N, pairs, e0, delay0, fft, p2o, delay *)
-       let k = rnat () in let np = rnat () in let nd = rnat () in let nb = rnat () in
-       let n = rnat () in
-       let pairs = r1 (fun () -> let i = rnat () in let j = rnat () in (i, j)) in
-       let e0 = r3 rflt in let d0 = r1 rnat in let fft = r4 rflt in
-       let p2o_ = r2 rnat in let dl = r2 rnat in
-       start cmd; p4 pf (exchange fops k pairs np nd nb n e0 d0 fft p2o_ dl); finish ()
-     | "q_shift" ->
-       let n = rnat () in let d = rnat () in let h = r1 rflt in
-       start cmd; p1 pf (shift_trunc fops n d h); finish ()
-     | "q_delays" ->
-       (* distance c dt -> floor bin, ceil bin *)
-       let d = rflt () in let c = rflt () in let dt = rflt () in
-       start cmd; pn (delay_floor fops d c dt); pn (delay_ceil fops d c dt); finish ()
-     | "q_nearest" ->
-       let dirs = r1 rvec in let v = rvec () in
-       start cmd; pn (nearest fops dirs v); finish ()
-     | "q_centroid_area" ->
-       let pts = r1 rvec in
-       start cmd;
-       let ((x, y), z) = centroid fops pts in pf x; pf y; pf z;
-       (match pts with p0 :: r -> pf (fan_area fops p0 r) | [] -> pf 0.0); finish ()
-     | _ -> failwith ("unknown command " ^ cmd))
+    match Hashtbl.find_opt commands cmd with
+    | Some f -> f cmd
+    | None -> failwith ("unknown command " ^ cmd)
   done
